@@ -1,5 +1,5 @@
 ENGINES = [
- {"name": "vsim", "path": "vsim/", "serves_properties": ["C13", "C14", "C15", "C16"],
+ {"name": "vsim", "path": "vsim/", "serves_properties": ["C13", "C14", "C15", "C16", "C17"],
   "kind_free_text": "deterministic simulator written for this task: seeded PRNG per run, simulated wall/monotonic clock, real tmpfs "
                     "file system behind seams that count, fail, tear and crash every call, fork-per-run driver with watchdogs, "
                     "delta-debugging shrinker, replay files; engines/ hold one workload+oracle per property, models/ the reference models"},
@@ -10,7 +10,6 @@ NOTES = ("Technique studied: deterministic simulation with fault injection only.
 def fill(check, pending):
     pending.update({
      "C08": "engine not built yet in this commit (planned: DESIGN.md section 3/C08); not claimed until it is",
-     "C17": "engine not built yet in this commit (planned: DESIGN.md section 3/C17); not claimed until it is",
     })
     check("C14", "exploration",
           "Seeded search over lookup histories on a simulated clock and file system: every get_template call of every run "
@@ -56,3 +55,14 @@ def fill(check, pending):
           "are out of scope; the reference interpreter is trusted (validated fault-free on every program).",
           "deterministic simulation: synchronous fault injection at every call-out (crash-point enumeration) vs reference interpreter",
           "DESIGN.md 3/C13")
+    check("C17", "exploration",
+          "Seeded histories (<= 30 ops) of render / invalidate_body / invalidate_def / invalidate_closure / invalidate(key) / "
+          "cache.set+get / toggle cache_enabled / advance clock / recompile / raising body / backend error over 1-3 generated "
+          "templates (page, defs with and without arguments, nested defs, named and anonymous blocks cached in arbitrary "
+          "combination, static and cache_key keys, buffered/filter, cache_* arguments at three levels) sharing one backend, "
+          "including URIs that differ only in punctuation. Execution witnesses (a tick counter through the context), output "
+          "text and the arguments a recording backend receives are compared with a reference cache model on every render; "
+          "real Beaker memory/file/dbm and dogpile backends run on the simulated clock.",
+          "Sampling, not proof. Expiry exactly at stored+timeout accepted either way; dogpile's plug-in is not namespaced by "
+          "template (own regions per template there) and has no set(); Beaker/dogpile run single-threaded.",
+          "deterministic simulation: seeded histories on a simulated clock + fault injection vs reference cache model", "DESIGN.md 3/C17")
